@@ -127,6 +127,8 @@ def _vec(ks, T, rd, wr, n, w, elem):
             continue      # the 4-component clamp_length obligations return `unknown` from nlsat within the cap: not claimed
         ks.append(K(f"{tl}_clamp_length_{kind}", w + extra, n, f"{wr}(o, 0, {rd}(i, 0).{c});", (lambda kind: lambda x, o, h: ob_cl(x, o, h, kind))(kind),
                     hyps=(lambda hy: lambda x, h: hy(x, h) + [n2(x[0:n]) > 0])(hy), elem=elem, site=f"{T}::clamp_length", desc=f"{T}::clamp_length ({kind}): keeps the direction, puts the length inside the bounds, identity when already inside", timeout=60))
+    # (a kernel '{T}::rotate_towards preserves |self| on both axis branches' was tried: the degenerate branch is reachable in mode R since llvm.is.fpclass of a quotient is
+    #  decided from the signs of numerator and denominator, but nlsat returns `unknown` within 100 s on either path - 9 real variables, degree > 8 - so it is not claimed)
     if n == 3 and T != "Vec3A" or T == "Vec3A":
         ks.append(K(f"{tl}_any_orthogonal_vector", w, n, f"{wr}(o, 0, {rd}(i, 0).any_orthogonal_vector());", lambda x, o, h: [("orthogonal", h.eq(R.dot(o, A(x)), 0))], elem=elem, site=f"{T}::any_orthogonal_vector"))
         ks.append(K(f"{tl}_any_orthonormal_vector", w, n, f"{wr}(o, 0, {rd}(i, 0).any_orthonormal_vector());", lambda x, o, h: [("orthogonal", h.eq(R.dot(o, A(x)), 0)), ("unit", h.eq(n2(o), 1))],
